@@ -7,14 +7,15 @@ par clang++ -std=c++17 -c $CF $H/c05_bfs.cpp -o $BUILD/bfs.o
 par clang++ -std=c++17 -c $CF $H/c05_streams.cpp -o $BUILD/streams.o
 # The binding of the configurable receiver reads three private members for the BFS key.  If that does not compile
 # (members renamed / restructured by a refactoring) fall back to the public-API-only key (see gs_bind_cfg.cpp).
-bind_cfg() {
-    if clang++ -std=c++17 -c $CF -fno-access-control $H/gs_bind_cfg.cpp -o $BUILD/bind_cfg.o 2> $BUILD/bind_cfg_full.err; then
+bind_cfg() { # $1 compiler, $2 flags, $3 object
+    if $1 -std=c++17 -c $2 -fno-access-control $H/gs_bind_cfg.cpp -o $3 2> $3.full.err; then
         return 0
     fi
-    clang++ -std=c++17 -c $CF -DGS_PUBLIC_ONLY $H/gs_bind_cfg.cpp -o $BUILD/bind_cfg.o
+    $1 -std=c++17 -c $2 -DGS_PUBLIC_ONLY $H/gs_bind_cfg.cpp -o $3
+    [ "$1" = clang++ ] || return 0   # the note is written once, by the main build
     {
         echo "NOTE: private state names changed, gs_bind_cfg.cpp no longer compiles against gstuff_autorecv's private members"
-        echo "      (first error: $(grep -m1 'error:' $BUILD/bind_cfg_full.err | cut -c1-200))."
+        echo "      (first error: $(grep -m1 'error:' $3.full.err | cut -c1-200))."
         echo "      The configurable receivers' BFS state key is now built from the public API only: size(), the cstr() bytes and"
         echo "      the answers of copies of the receiver to a fixed set of probe sequences (phase and CRC fingerprint);"
         echo "      capacities, alphabets and fix-point search are unchanged.  If the receiver is not copy-constructible the"
@@ -24,13 +25,27 @@ bind_cfg() {
     } > $BUILD/notes.txt
     cat $BUILD/notes.txt
 }
-par bind_cfg
+par bind_cfg clang++ "$CF" $BUILD/bind_cfg.o
 par clang++ -std=c++17 -c $CF -DGS_LEGACY_REINIT_SETBUF_ONLY $H/gs_bind_legacy.cpp -o $BUILD/bind_legacy.o
 par clang++ -std=c++17 -c $CF $REPO/igris/protocols/gstuff.cpp -o $BUILD/gstuff.o
 par clang -c $CF $REPO/igris/protocols/gstuff_v1/autorecv.c -o $BUILD/autorecv_v1.o
 par clang -c $CF $REPO/igris/protocols/gstuff_v1/gstuff.c -o $BUILD/gstuff_v1.o
 par clang++ -std=c++17 -O2 -c -I$MC $MC/mc.cpp -o $BUILD/mc.o
+# release-mode variant: gcc -O2 -DNDEBUG (an assert that carries a side effect vanishes in release builds), ASan; re-runs a
+# cheap selection of the sub-checks.
+N=$BUILD/ndebug; mkdir -p $N
+NF="-O2 -g -DNDEBUG -fsanitize=address -fno-omit-frame-pointer -I$REPO -I$MC -I$H"
+par g++ -std=c++17 -c $NF $H/c05_bfs.cpp -o $N/bfs.o
+par g++ -std=c++17 -c $NF $H/c05_streams.cpp -o $N/streams.o
+par bind_cfg g++ "$NF" $N/bind_cfg.o
+par g++ -std=c++17 -c $NF -DGS_LEGACY_REINIT_SETBUF_ONLY $H/gs_bind_legacy.cpp -o $N/bind_legacy.o
+par g++ -std=c++17 -c $NF $REPO/igris/protocols/gstuff.cpp -o $N/gstuff.o
+par gcc -c $NF $REPO/igris/protocols/gstuff_v1/autorecv.c -o $N/autorecv_v1.o
+par gcc -c $NF $REPO/igris/protocols/gstuff_v1/gstuff.c -o $N/gstuff_v1.o
+par g++ -std=c++17 -O2 -c -I$MC $MC/mc.cpp -o $BUILD/mc_gcc.o
 parwait
+g++ -fsanitize=address $N/bfs.o $N/streams.o $N/bind_cfg.o $N/bind_legacy.o $N/gstuff.o $N/autorecv_v1.o $N/gstuff_v1.o $BUILD/mc_gcc.o -o $BUILD/c05_ndebug
 LIB="$BUILD/bind_cfg.o $BUILD/bind_legacy.o $BUILD/gstuff.o $BUILD/autorecv_v1.o $BUILD/gstuff_v1.o $BUILD/mc.o"
 clang++ -fsanitize=address $BUILD/bfs.o $BUILD/streams.o $LIB -o $BUILD/c05
-echo "receiver $BUILD/c05" > $BUILD/runs.txt
+echo "receiver_ndebug_gcc_O2 $BUILD/c05_ndebug --only cap3,garbage_prefix,large_buffers,cut_then_frames,two_receivers,alphabet_constants" > $BUILD/runs.txt
+echo "receiver $BUILD/c05" >> $BUILD/runs.txt
